@@ -233,7 +233,15 @@ def gen_items(rng, fields, depth, drop_optional=0.5):
         if f["skip"]:
             continue
         if f["flatten"]:
-            sub = gen_items(rng, BY_NAME[f["ty"]["name"]]["fields"], depth + 1, drop_optional)
+            tgt = BY_NAME[f["ty"]["name"]]
+            if tgt["kind"] == "enum":
+                # an enum takes exactly one of the unclaimed items
+                one = gen_enum_inner(rng, tgt, depth + 1)
+                if one is None:
+                    return None
+                items.append(one[1])
+                continue
+            sub = gen_items(rng, tgt["fields"], depth + 1, drop_optional)
             if sub is None:
                 return None
             items += sub
@@ -300,23 +308,33 @@ def gen_recv_item(rng, x, name, depth=0):
     if k == "newtype":
         return gen_value(rng, x["inner"], name, depth)
     # enum
+    inner = gen_enum_inner(rng, x, depth, strings=True)
+    if inner is None:
+        return None
+    return '%s = "%s"' % (name, inner[1]) if inner[0] == "str" else "%s(%s)" % (name, inner[1])
+
+
+def gen_enum_inner(rng, x, depth, strings=False):
+    """the single item that selects a variant of enum x: ("item", text), or ("str", name) for the string form"""
     vs = [v for v in x["variants"] if not v["skip"] and not kebab_unreachable(v["name"])]
     rng.shuffle(vs)
     for v in vs:
         if v["style"] == "unit":
-            return rng.choice(['%s = "%s"' % (name, v["name"]), "%s(%s)" % (name, w(v["name"]))])
+            # (the choice is drawn even when unused, so that the stream of random draws does not depend on `strings`)
+            as_str = rng.choice([True, False])
+            return ("str", v["name"]) if (as_str and strings) else ("item", w(v["name"]))
         if v["style"] == "newtype":
             inner = gen_value(rng, v["fields"][0]["ty"], v["name"], depth + 1)
             if inner is not None:
-                return "%s(%s)" % (name, inner)
+                return ("item", inner)
         else:
             items = gen_items(rng, v["fields"], depth + 1)
             if items is not None:
-                return "%s(%s(%s))" % (name, w(v["name"]), ", ".join(items))
+                return ("item", "%s(%s)" % (w(v["name"]), ", ".join(items)))
     return None
 
 
-MISTAKE_KINDS = ["unknown", "duplicate", "literal", "drop_required", "bad_value", "enum_arity", "wrong_form", "malformed"]
+MISTAKE_KINDS = ["unknown", "duplicate", "literal", "drop_required", "bad_value", "enum_arity", "wrong_form", "malformed", "global_path"]
 
 
 def inject_mistakes(rng, src, k):
@@ -372,6 +390,10 @@ def inject_mistakes(rng, src, k):
                     src = src[:q] + " " + src[q + 2:]
                 else:
                     src = src[:p + 1] + "x y" + src[p + 1:]
+        elif kind == "global_path":
+            # `::a` is a different path from `a`: the item becomes an unknown name (and `a` may now be missing)
+            if p + 1 < len(src) and (src[p + 1].isalpha() or src[p + 1] == "_"):
+                src = src[:p + 1] + "::" + src[p + 1:]
         elif kind == "enum_arity":
             src = src[:p + 1] + ")" + src[p + 1:] if rng.random() < 0.3 else src
         else:
